@@ -75,6 +75,24 @@ def peak_only(ctx, n, split=None, kind='f'):
                                             [ctx.eq(p2[i], p[i], sc) for i in range(n)])))
 
 
+def cleaned_helpers(ctx, n):
+    """the *_4_cleaned_data helpers called directly (public names; documented precondition: no two adjacent samples
+    equal) on a series that does NOT start at zero: same conservation laws, same shift independence."""
+    pc = ctx.lib.fns.peaks_and_crossings
+    x = ctx.arr('x', n, -100.0, 100.0)
+    c = ctx.real('c', -100.0, 100.0)
+    ctx.assume(S.sym_and(*[x[j] != x[j - 1] for j in range(1, n)]))
+    xl = list(x)
+    sc = 100.0 * n * 4
+    d = pc.determine_peak_only_delta_series_4_cleaned_data(x)
+    ctx.observe('delta', d)
+    ctx.claim('length', len(d) == n, len(d))
+    ctx.claim('abs_sum_is_total_variation', ctx.eq(_sum([S.sym_abs(v) for v in d]), _tv(xl), sc))
+    ctx.claim('signed_sum_magnitude_is_end_minus_start', ctx.eq(S.sym_abs(_sum(list(d))), S.sym_abs(xl[-1] - xl[0]), sc))
+    d2 = pc.determine_peak_only_delta_series_4_cleaned_data(ctx.np.array([v + c for v in xl]))
+    ctx.claim('shift_invariant', S.sym_and(*[ctx.eq(d2[i], d[i], sc) for i in range(n)]))
+
+
 def _b(ctx, b, arr):
     return ctx.np.array([b]) if arr else b
 
@@ -188,7 +206,7 @@ def int_dtype(ctx, n, b, split=None):
          im.calc_cyc_amp_combined_arrays_w_power_law(xf, xf, n_cyc, b))
 
 
-SCENARIOS = {'peak_only': peak_only, 'power_law': power_law, 'scaling': scaling, 'int_dtype': int_dtype}
+SCENARIOS = {'peak_only': peak_only, 'power_law': power_law, 'scaling': scaling, 'int_dtype': int_dtype, 'cleaned_helpers': cleaned_helpers}
 SELFTEST_PER_SCENARIO = 3
 
 
@@ -217,3 +235,5 @@ def obligations(tier, seed):
     for b in (1.0, 0.5, 2.0):
         for n in ((2, 3, 4) if q else (2, 3, 4, 5)):
             yield Ob('int_dtype', {'n': n, 'b': b}, query_ms=60000, timeout_s=900)
+    for n in ((2, 3, 4, 5) if q else (2, 3, 4, 5, 6)):
+        yield Ob('cleaned_helpers', {'n': n}, query_ms=60000, timeout_s=900)
